@@ -290,14 +290,37 @@ def drv_splice(text, kind):
     return got, shape, n_entries
 
 
-def drv_files(content, enc, target_kind, ctx):
-    lib_f = EP.parse_file("some/path.bib", encoding=enc)
-    lib_s = EP.parse_string(content)
-    text = EP.write_string(lib_s)
+STACK_VARIANTS = (None, "append-iter", "stack-iter", "stack-empty", "prepend-iter", "unparse-iter", "unparse-empty")
+
+
+def file_kwargs(sv):
+    """(parse_file kwargs, parse_string kwargs, write_file kwargs, write_string kwargs): the file wrappers get one-shot
+    iterators / empty stacks, the string entry points the same stacks as fresh lists"""
+    pf, ps, wf, ws = {}, {}, {}, {}
+    if sv == "append-iter":
+        pf, ps = {"append_middleware": iter(mk_stack(["b8", "l9"]))}, {"append_middleware": mk_stack(["b8", "l9"])}
+    elif sv == "stack-iter":
+        pf, ps = {"parse_stack": iter(mk_stack(["b1", "l2"]))}, {"parse_stack": mk_stack(["b1", "l2"])}
+    elif sv == "stack-empty":
+        pf, ps = {"parse_stack": []}, {"parse_stack": []}
+    elif sv == "prepend-iter":
+        wf, ws = {"append_middleware": iter(mk_stack(["b8", "l9"]))}, {"prepend_middleware": mk_stack(["b8", "l9"])}
+    elif sv == "unparse-iter":
+        wf, ws = {"parse_stack": iter(mk_stack(["b1", "l2"]))}, {"unparse_stack": mk_stack(["b1", "l2"])}
+    elif sv == "unparse-empty":
+        wf, ws = {"parse_stack": ()}, {"unparse_stack": []}
+    return pf, ps, wf, ws
+
+
+def drv_files(content, enc, target_kind, ctx, sv=None):
+    pf, ps, wf, ws = file_kwargs(sv)
+    lib_f = EP.parse_file("some/path.bib", encoding=enc, **pf)
+    lib_s = EP.parse_string(content, **ps)
+    text = EP.write_string(lib_s, **ws)
     if target_kind == "path":
-        EP.write_file("out/path.bib", lib_s)
+        EP.write_file("out/path.bib", lib_s, **wf)
     else:
-        EP.write_file(ctx["fileobj"], lib_s)
+        EP.write_file(ctx["fileobj"], lib_s, **wf)
     return desc(lib_f), desc(lib_s), text
 
 
@@ -554,7 +577,7 @@ def filelog_run(content, enc, target_kind, opener):
     return drv_files(content, enc, target_kind, opener)
 
 
-def native_filelog(enc, target_kind):
+def native_filelog(enc, target_kind, sv=None):
     """replay on the real code with builtins.open mocked: returns a description if the call log is wrong"""
     import builtins, logging
     from unittest import mock
@@ -583,7 +606,7 @@ def native_filelog(enc, target_kind):
         return F(log)
     try:
         with mock.patch.object(builtins, "open", fake_open):
-            df, ds, text = drv_files(content, enc, target_kind, {"fileobj": F(flog)})
+            df, ds, text = drv_files(content, enc, target_kind, {"fileobj": F(flog)}, sv)
     except Exception as ex:  # noqa
         return f"raised {type(ex).__name__}: {ex}"
     exp_read = [("open", "some/path.bib", "r", enc), ("read",), ("close",)]
@@ -594,9 +617,10 @@ def native_filelog(enc, target_kind):
     return None if ok else f"log={log} fileobj_log={flog}"
 
 
-def task_filelog(enc, target_kind):
+def task_filelog(enc, target_kind, sv=None):
     """concrete-mode run of the file wrappers against the open() stub: exact call log"""
     eng = Engine()
+    eng.own_class(TagFields, TagLib, Splice, AddBlock, SpliceAll)
     rec = Recorder(eng)
     content = "@a{k, t = {v}}\n"
     log = []
@@ -605,14 +629,14 @@ def task_filelog(enc, target_kind):
     ctx = {"fileobj": make_file(flog, ""), "log": log, "flog": flog}
 
     def drv(content, enc, target_kind, ctx):
-        r = drv_files(content, enc, target_kind, ctx)
+        r = drv_files(content, enc, target_kind, ctx, sv)
         return r, ctx["log"], ctx["flog"]
 
     def rp(m):
-        r = native_filelog(enc, target_kind)
+        r = native_filelog(enc, target_kind, sv)
         if r is None:
             return None
-        return {"input": [enc, target_kind], "observed": r, "expected": "open(path, encoding=enc) + read once; write exactly write_string's text once"}
+        return {"input": [enc, target_kind, sv], "observed": r, "expected": "open(path, encoding=enc) + read once; write exactly write_string's text once"}
     worlds = eng.run(drv, [content, enc, target_kind, ctx])
     for W in worlds:
         bad = True
@@ -633,7 +657,7 @@ def main():
     chk = Check("C20", __doc__)
     chk.bounds = {"document": "'@a{K, t = {v}, u = w}' + newline + 2 symbolic characters over the splitter alphabet; K symbolic over {a,b}; and documents that are just 2 symbolic characters (possibly blank) with content-generating probes",
                   "stacks": "parse_stack / unparse_stack in {None, [], 1, 2, 3 probes}, append / prepend in {None, [], 1, 2 probes}, block and library probes mixed, passed as list / tuple / one-shot iterator",
-                  "splice results": sorted(SPLICE), "splice at transform_block level": "document with String, Preamble, ExplicitComment, ImplicitComment, Entry, duplicate-key (failed) block + 2 symbolic characters; target block type symbolic over S/P/X/I/E/F, result kind symbolic over None, [], block, [a,b], (b,a), [a,a], 5, [a,7], same", "file layer": "open() stub; encodings utf-8/latin-1/gbk/utf-16 passed through; path and file-object targets"}
+                  "splice results": sorted(SPLICE), "splice at transform_block level": "document with String, Preamble, ExplicitComment, ImplicitComment, Entry, duplicate-key (failed) block + 2 symbolic characters; target block type symbolic over S/P/X/I/E/F, result kind symbolic over None, [], block, [a,b], (b,a), [a,a], 5, [a,7], same", "file layer": "open() stub; encodings utf-8/latin-1/gbk/utf-16 passed through; path and file-object targets; the file wrappers with default stacks and with one-shot iterator / empty parse_stack, append_middleware (write_file: its parse_stack / append_middleware arguments) against the string entry points given the same stacks as lists"}
     chk.assumptions = ["real codecs / the OS are outside the claim: open() is a stub that records its arguments; only the pass-through of path/encoding and the equality with parse_string(content) / write_string(...) are claimed",
                        "probe middlewares are the three classes defined in checks/c20.py"]
     chk.stubs = ["builtins.open -> recording stub file"]
@@ -659,6 +683,9 @@ def main():
     for enc, tk in itertools.product(("utf-8", "latin-1", "gbk", "utf-16"), ("path", "obj")):
         chk.add_task(f"files-{enc}-{tk}", task_files, enc=enc, target_kind=tk)
         chk.add_task(f"filelog-{enc}-{tk}", task_filelog, enc=enc, target_kind=tk)
+        if enc in ("utf-8", "gbk"):
+            for sv in STACK_VARIANTS[1:]:
+                chk.add_task(f"filelog-{enc}-{tk}-{sv}", task_filelog, enc=enc, target_kind=tk, sv=sv)
     chk.run()
 
 
